@@ -101,6 +101,41 @@ theorem skipped_iff_not_assignable (c : Change) (assoc : List (Nat × Nat)) (s :
     applySites c assoc [s] tree = .ok tree := by
   simp [applySites, hg, hn, bind, Except.bind, pure, Except.pure]
 
+/-- a site whose replacement can be generated but is not admissible in its slot -/
+def Refused (c : Change) (assoc : List (Nat × Nat)) (s : Site) : Prop :=
+  ∃ give, nodeReplace c assoc s.data = .ok give ∧ assignable give s.slotTy = false
+
+/-- **A site that is left alone does not disturb the others.** Wherever it stands among the sites of a change, a site
+whose replacement is not admissible may as well not be there: the loop ends the same way, with the same tree - what it
+does to the sites before and after it does not depend on it. -/
+theorem refused_site_is_as_good_as_absent (c : Change) (assoc : List (Nat × Nat)) (s : Site) (hs : Refused c assoc s) :
+    ∀ (a b : List Site) (tree : V), applySites c assoc (a ++ s :: b) tree = applySites c assoc (a ++ b) tree
+  | [], b, tree => by
+    obtain ⟨give, hg, hn⟩ := hs
+    simp [applySites, hg, hn, bind, Except.bind]
+  | x :: a, b, tree => by
+    cases hx : nodeReplace c assoc x.data with
+    | error e => simp [applySites, hx, bind, Except.bind]
+    | ok gx =>
+      simp only [List.cons_append, applySites, hx, bind, Except.bind]
+      exact refused_site_is_as_good_as_absent c assoc s hs a b _
+
+/-- a change none of whose sites admits its replacement leaves the tree as it is, and does not fail -/
+theorem all_sites_inadmissible_is_a_noop (c : Change) (assoc : List (Nat × Nat)) :
+    ∀ (sites : List Site) (tree : V), (∀ s ∈ sites, Refused c assoc s) → applySites c assoc sites tree = .ok tree
+  | [], tree, _ => by simp [applySites, pure, Except.pure]
+  | s :: ss, tree, h => by
+    have := refused_site_is_as_good_as_absent c assoc s (h s (List.mem_cons_self)) [] ss tree
+    simp only [List.nil_append] at this
+    rw [this]
+    exact all_sites_inadmissible_is_a_noop c assoc ss tree (fun x hx => h x (List.mem_cons_of_mem _ hx))
+
+/-- non-vacuity: a selector generated for a slot that holds a name (`-Name` / `+defaults.Name` at a field name) is refused -/
+def exChange : Change :=
+  { (default : Change) with plus := { pkg := "", imports := [], kind := "expr", node := .ptr "ast.SelectorExpr" 7 [.str "defaults", .str "Name"] } }
+def exSite : Site := { parent := 3, field := 1, index := none, slotTy := "*ast.Ident", data := default }
+example : Refused exChange [] exSite := ⟨_, rfl, by decide +kernel⟩
+
 /-- '+' tokens that are not metavariables appear verbatim: scalars are reproduced as they are -/
 theorem scalars_verbatim (mt : Meta) (assoc : List (Nat × Nat)) (d : Data) (fb : Bool) (s : String) (n : Int) (b : Bool) :
     replaceV mt assoc (.str s) d fb = .ok (.str s) ∧ replaceV mt assoc (.int n) d fb = .ok (.int n) ∧
